@@ -189,8 +189,12 @@ def float_texts(draw, max_exp=30):
 def text_values(draw, chars=_TEXT_CHARS):
     """Text value (never empty, never something the typing rule would read as number / yes / no); may contain
     colons, dots, inner spaces, times and dates."""
-    k = draw(st.integers(0, 5))
-    if k <= 1:
+    k = draw(st.integers(0, 6))
+    if k == 6:
+        # near misses of what the typing rule reads as yes / no or as a number: plain text all of them
+        s = draw(st.sampled_from(('Y', 'N', 'TRUE', 'FALSE', 'True', 'false', 'T', 'F', 'YE', 'NOO', 'YESS', 'ON', 'OFF', 'NONE', 'NULL',
+                                  'N/A', 'y', 'n', 'E', 'W', 'S', '-', '+', '.', 'e5', '1e', '0x1F', '1,5', '12:30', '1-2', 'NaNa', 'in f')))
+    elif k <= 1:
         s = _join_words(draw, WORDS, chars, 1, 4)
     elif k <= 3:
         s = draw(st.sampled_from(VALUE_PIECES))
